@@ -427,7 +427,9 @@ def rule_sites(ctx):
     ctx.add("SITES", "subsort-table", tab == ref, ctx.site(sb), "subsort(v1, v2) evaluated on all 9 pairs of sorts: integer <= general, symbol <= general, reflexive, nothing else", construct=sorted(tab.items()))
     te = fx.fn("unstable::transitive_equality")
     from .. import leaves
-    v = sym.Eval(fx, inline_depth=0).function(te)
+    ev_te = sym.Eval(fx, inline_depth=0)
+    ev_te.opaque_helpers = {sb["def_path"]}      # the subsort test stays a call (it is decided by the table above), whatever form it took
+    v = ev_te.function(te)
     res = []
     for ts, x in leaves.leaves(v):
         x = leaves.strip_acc(x)
